@@ -108,6 +108,8 @@ def structures(rng):
              dims=[dict(fam="weibull", slicer=Nn(8, 15, vr=(8, 40), vru="0.1")), dict(ln, cond=0)], fitdesc=None),
         dict(name="weibull|lognormal width0.5 value_range inside data", units=["0.1", None],
              dims=[dict(fam="weibull", slicer=W("0.5", 15, vr=(10, 35), vru="0.1")), dict(ln, cond=0)], fitdesc=None),
+        dict(name="weibull|lognormal width0.2 edges", units=["0.1", None],
+             dims=[dict(fam="weibull", slicer=W("0.2", 10)), dict(ln, cond=0)], fitdesc=None),
         dict(name="weibull|normal points untied", units=["0.001", None], untied=True,
              dims=[dict(fam="weibull", slicer=P(int(rng.integers(60, 140)), 40)), dict(nrm, cond=0)], fitdesc=None),
         dict(name="weibull|normal points tied", units=["0.1", None],
@@ -317,6 +319,11 @@ def dim_records(vc, case, rid0):
             refq.append(q)
             loq.append(q2)
         rec.update(refq=refq, loq=loq, onlat=bool(onlat))
+        from .c10 import _bounds_bits
+        ends = {"width": ("ropen" if sl.get("ropen", True) else "lopen"),
+                "number": ("ropen+last" if sl.get("incmax", True) else "ropen"), "points": "closed"}[sl["kind"]]
+        contain, disjoint = _bounds_bits(np.asarray(col, dtype=float), masks, [(float(a), float(b)) for a, b in bnds], 0.0, ends)
+        rec.update(boundscontain=bool(contain), boundsdisjoint=bool(disjoint))
         # the data of each interval handed to the per-interval fits
         di = cd1.data_intervals
         rec["datamasked"] = [bool(np.array_equal(np.asarray(di[t]), data[np.asarray(masks[t], bool), i]))
@@ -395,7 +402,7 @@ def key_of(c):
 
 def run(ctx):
     vc = import_virocon()
-    ctx.rule = ("12 model structures (2-D/3-D; chain and fan; width / number / points slicers with option variants; MLE and WLSQ; "
+    ctx.rule = ("13 model structures (2-D/3-D; chain and fan; width / number / points slicers with option variants; MLE and WLSQ; "
                 "fit descriptions None / partial) x data sizes x sorted/shuffled rows with conditioning values rounded to a lattice "
                 "(ties); each case = fit, fit of row-permuted data, fit-other-then-refit; distinct = (structure, n, order, seed); "
                 "one record per conditional dimension plus one per model")
